@@ -109,3 +109,26 @@ if os.environ.get('VERIF_FINITE_FLOATS') == '1':
   os.environ['CROSSHAIR_ONLY_FINITE_FLOATS'] = '1'
   STUBS['finite_floats'] = 'symbolic float arguments range over finite reals only (non-finite inputs are outside this obligation)'
   ENABLED = tuple(ENABLED) + ('finite_floats',)
+
+# int(<symbolic real>) : CrossHair 0.0.110 realises the float (value enumeration); use its own symbolic truncation.
+if FLOAT_MODEL == 'real':
+  _orig_int = _core._PATCH_REGISTRATIONS.get(int, _bl._int)
+
+  _int_depth = [0]
+
+  def _int_sym(val=0, *a, **kw):
+    with NoTracing():
+      if _int_depth[0]:            # int() called from inside CrossHair's own _int on an already-realised value
+        return _b.int(val, *a, **kw)
+      is_real = isinstance(val, _bl.RealBasedSymbolicFloat) and not a and not kw
+    if is_real:
+      return val.__int__()
+    _int_depth[0] += 1
+    try:
+      return _orig_int(val, *a, **kw)
+    finally:
+      _int_depth[0] -= 1
+
+  _core._PATCH_REGISTRATIONS[int] = _int_sym
+  STUBS['int_of_real'] = 'int(symbolic real) = symbolic truncation toward zero (z3 ToInt) instead of realisation'
+  ENABLED = tuple(ENABLED) + ('int_of_real',)
